@@ -14,3 +14,31 @@ Definition agree_frames (ops : list (option N)) (observed : list N) (file_len : 
   let sizes := op_sizes 0 ops in
   list_N_eqb sizes observed
   && (file_len =? 12 + fold_right (fun s acc => 8 + s + TAGLEN + acc) 0 sizes).
+
+(* ---- CryptoReader over a chunked / interrupting / failing underlying reader (CryptoIo.v) ---- *)
+From SF Require Import CryptoIo.
+
+(* the AEAD as a table extracted from the file by an independent decryptor: (nonce, ciphertext||tag) -> plaintext *)
+Definition tbl := list (N * N * bytes * bytes).
+Definition open_tbl (t : tbl) (_ : unit) (n : nonce) (c : bytes) : option bytes :=
+  match find (fun e => (fst (fst (fst e)) =? fst n) && (snd (fst (fst e)) =? snd n) && bytes_eqb (snd (fst e)) c) t with
+  | Some e => Some (snd e)
+  | None => None
+  end.
+
+Definition io_eqb (a b : io bytes) : bool :=
+  match a, b with
+  | IoOk x, IoOk y => bytes_eqb x y
+  | IoErr IoEof, IoErr IoEof | IoErr IoOther, IoErr IoOther => true
+  | _, _ => false
+  end.
+Fixpoint ios_eqb (a b : list (io bytes)) : bool :=
+  match a, b with
+  | [], [] => true
+  | x :: a', y :: b' => io_eqb x y && ios_eqb a' b'
+  | _, _ => false
+  end.
+
+Definition agree_serve (t : tbl) (file : bytes) (sched : list N) (budget : option N) (reqs : list N)
+           (observed : list (io bytes)) : bool :=
+  ios_eqb (serve unit (open_tbl t) tt (UR file sched budget) reqs) observed.
